@@ -138,7 +138,7 @@ def run(F, R, tier):
     yk = [n for n in nv["_nodes"] if callee_matches(n, ["PackageSpecifiers::add_used_yanked_package"])]
     if R.ob("C06-c", "yanked use is reported", len(yk) == 1, "add_used_yanked_package not called in resolve_jsr_nv", nv["file"]):
         g = guards_at(F, yk[0])
-        R.ob("C06-c", "reported exactly when the pick is yanked", any(x.kind == "cond" and x.pol and x.node.get("k") == "Field" and x.node["field"] == "is_yanked" for x in g) and len([x for x in g if x.kind == "cond"]) == 1, "guards: %s" % [x.text() for x in g], where(yk[0]))
+        R.ob("C06-c", "reported exactly when the pick is yanked", any(x.kind == "cond" and x.pol and x.node.get("k") == "Field" and x.node["field"] == "is_yanked" for x in g) and len([x for x in g if x.kind == "cond" and not x.derived]) == 1, "guards: %s" % [x.text() for x in g], where(yk[0]))
     rc = [n for n in nv["_nodes"] if callee_matches(n, ["JsrPackageVersionResolver::resolve_version"])]
     if R.ob("C06-c", "resolve_jsr_nv calls the tiered resolver", len(rc) == 1, "shape changed", nv["file"]):
         ex = rc[0]["args"][1]
@@ -210,7 +210,7 @@ def run(F, R, tier):
         g = guards_at(F, nones[0])
         ok = any(x.kind == "cond" and x.pol and "exclude_jsr_pkgs" in expr_text(x.node) and "exclude_jsr_pkg_prefixes" in expr_text(x.node) for x in g)
     R.ob("C06-f", "excluded packages get no date cutoff, all others the configured date", ok, "get_for_package shape changed", gp["file"])
-    exact = [n for n in gp["_nodes"] if n.get("k") == "MethodCall" and n["name"] == "contains" and peel(n["recv"]).get("field") == "exclude_jsr_pkgs"]
+    exact = [n for n in gp["_nodes"] if n.get("k") == "MethodCall" and n["name"] == "contains" and field_of(n["recv"]) == "exclude_jsr_pkgs"]
     pre = [n for n in gp["_nodes"] if n.get("k") == "MethodCall" and n["name"] == "starts_with"]
     pre_ok = bool(pre) and all(any(a_.get("k") == "MethodCall" and mentions_field(a_, "exclude_jsr_pkg_prefixes") and not mentions_field(a_, "exclude_jsr_pkgs") for a_ in k_ancestors(p_)) for p_ in pre)
     R.ob("C06-f", "exact exclusions match the whole package name; only the prefix list is matched by prefix", len(exact) == 1 and pre_ok,
